@@ -3,6 +3,7 @@
 #![allow(unused, non_snake_case, non_camel_case_types, dead_code, unreachable_code)]
 use vstd::prelude::*;
 use verus_builtin_macros::{verus_spec, verus_verify, proof, proof_decl};
+use vstd::std_specs::cmp::*;
 
 verus! {
 broadcast use effectlog::group_effectlog;
@@ -13,6 +14,14 @@ pub trait OutputMessage: Message + Clone {}
 #[verifier::external_body] #[verifier::reject_recursive_types(T)] pub struct BReceiver<T> { _p: core::marker::PhantomData<T> }
 #[verifier::external_body] #[verifier::reject_recursive_types(T)] pub struct BSender<T> { _p: core::marker::PhantomData<T> }
 pub enum RecvError { Closed, Lagged(u64) }
+pub assume_specification [<ActorStatus as PartialEq>::eq] (a: &ActorStatus, b: &ActorStatus) -> (r: bool)
+    ensures r == (*a == *b);
+impl PartialEqSpecImpl for ActorStatus {
+    open spec fn obeys_eq_spec() -> bool { true }
+    open spec fn eq_spec(&self, b: &ActorStatus) -> bool { *self == *b }
+}
+/// A-std: slice `contains` (nothing about WHICH statuses are listed is needed here)
+pub assume_specification<T: PartialEq> [<[T]>::contains] (v: &[T], x: &T) -> (r: bool);
 #[verifier::external_body] #[verifier::reject_recursive_types(T)] pub struct JoinHandle<T> { _p: core::marker::PhantomData<T> }
 #[verifier::external_body] #[verifier::reject_recursive_types(M)] pub struct ActorRef<M> { _p: core::marker::PhantomData<M> }
 #[verifier::external_body] pub struct MessagingErr { _p: u8 }
@@ -88,6 +97,9 @@ impl<T> BSender<T> {
 }
 #[verus_verify]
 impl<M> ActorRef<M> {
+    /// the receiver's status, whatever it is: a subscription does not depend on it
+    #[verus_verify(external_body)]
+    pub fn get_status(&self) -> ActorStatus { unimplemented!() }
     #[verus_verify(external_body)]
     #[verus_spec(r =>
         with Tracked(log): Tracked<&mut EffectLog>
